@@ -257,6 +257,19 @@ pub fn check_slice(b: &[u8], ctx: &mut Ctx) -> Result<(), Failure> {
     Ok(())
 }
 
+/// lengths congruent to 32 modulo 2^8 / 2^16 (a length narrowed to a smaller integer type before the
+/// comparison), and their neighbours; the slice starts with a valid encoding
+fn wrapping_length_case() -> BoxedStrategy<Case> {
+    (pt_src(), prop_oneof![Just(288usize), Just(544), Just(32 + 65536), Just(287), Just(289), Just(256), Just(255), Just(65536), Just(32 + 2 * 65536)], any::<u8>())
+        .prop_map(|(src, len, fill)| {
+            let s = CURVE.encode_bytes(&src.point());
+            let mut v = s.to_vec();
+            v.resize(len, fill);
+            Case::Slice { family: "valid-then-padding(wrapping length)".into(), bytes: HexBytes(v) }
+        })
+        .boxed()
+}
+
 fn slice_case() -> BoxedStrategy<Case> {
     (pt_src(), 0usize..=80, 0u8..4, proptest::collection::vec(any::<u8>(), 80))
         .prop_map(|(src, len, mode, rnd)| {
@@ -319,6 +332,7 @@ impl Property for C02 {
         prop_oneof![
             5 => bytes32_near().prop_map(Case::B32),
             1 => slice_case(),
+            1 => wrapping_length_case(),
         ]
         .boxed()
     }
@@ -346,6 +360,11 @@ impl Property for C02 {
                 b.resize(len, 0);
                 v.push(Case::Slice { family: "edge-valid-resized".into(), bytes: HexBytes(b) });
             }
+        }
+        for len in [255usize, 256, 287, 288, 289, 544, 65536, 65568] {
+            let mut b = le32(&g).to_vec();
+            b.resize(len, 0);
+            v.push(Case::Slice { family: "valid-then-padding(wrapping length)".into(), bytes: HexBytes(b) });
         }
         // s = q - 1 (= -1) and 1: the specification's division by zero
         v.push(Case::B32(Bytes32::new("minus-one", &(&Q.m - 1u32))));
